@@ -766,7 +766,10 @@ func (g *gen) methodDecl(ti int, m methDef) string {
 		for _, name := range pool {
 			s := g.look(ti, m.ptr, true, name)
 			if s.kind == selMethod && s.owner >= 0 && s.owner < ti && s.res == m.res && !(s.f14 && excl("F-C09-14")) {
-				inner = fmt.Sprintf("r.%s(%s)", name, g.args(s.params))
+				// evaluated in its own statement: Go does not order a call relative to
+				// the variable reads of the same expression
+				fmt.Fprintf(&body, "in := r.%s(%s)\n", name, g.args(s.params))
+				inner = "in"
 				g.Tag("method-calls-promoted-method")
 				break
 			}
@@ -1120,7 +1123,7 @@ func (g *gen) siteIface() string {
 			// follow-ups on the interface value
 			switch g.Pick(6, "iface-follow") {
 			case 0: // static conversion to a smaller interface
-				for c := 0; c < len(g.ifaces) && !(id.std == "" && excl("F-C09-6")); c++ {
+				for c := 0; c < len(g.ifaces) && !excl("F-C09-6"); c++ {
 					jdx := (idx + 1 + c) % len(g.ifaces)
 					if jdx == idx {
 						continue
